@@ -61,18 +61,19 @@ func (m *module) done(data starlark.StringDict, err error) (starlark.StringDict,
 // wait waits for the receiver to finish loading. It returns an error if the module fails
 // to load or if the wait would result in a cyclic dependency.
 func (m *module) wait(waiter *module) (starlark.StringDict, error) {
-	m.m.Lock()
-	defer m.m.Unlock()
-
 	if waiter != nil {
-		loading := m.loading
-		for loading != nil {
+		// Follow the chain of modules the receiver is (transitively) waiting on. Each link
+		// is read under its own module's lock only, so no two module locks are ever held
+		// together.
+		for loading := m; loading != nil; loading = loading.getLoading() {
 			if loading == waiter {
 				return nil, fmt.Errorf("cyclic dependency on %v", m.label)
 			}
-			loading = m.getLoading()
 		}
 	}
+
+	m.m.Lock()
+	defer m.m.Unlock()
 
 	for !m.loaded {
 		m.cond.Wait()
